@@ -120,6 +120,73 @@ Proof.
   apply Hgen. now left.
 Qed.
 
+(* ------------------------------------------------------------------ *)
+(* every symbol of the text gets a code: from_data covers its own text   *)
+(* ------------------------------------------------------------------ *)
+Lemma bump_nth : forall fr i fr', bump i fr = Some fr' ->
+  length fr' = length fr /\ 0 < nth i fr' 0 /\ forall k, nth k fr 0 <= nth k fr' 0.
+Proof.
+  induction fr as [|h t IH]; intros i fr' H; [destruct i; discriminate|].
+  destruct i as [|i]; cbn [bump] in H.
+  - destruct (h + 1 <? W32); [|discriminate]. injection H as <-. cbn [length nth].
+    split; [reflexivity|]. split; [lia|]. intros [|k]; cbn [nth]; lia.
+  - destruct (bump i t) as [t'|] eqn:Hb; [|discriminate]. injection H as <-.
+    destruct (IH i t' Hb) as [Hl [Hp Hm]]. cbn [length nth]. split; [lia|]. split; [exact Hp|].
+    intros [|k]; cbn [nth]; [lia|apply Hm].
+Qed.
+Lemma count_go_pos : forall d fr fr', count_go d fr = Some fr' ->
+  (forall k, nth k fr 0 <= nth k fr' 0) /\ forall s, In s d -> 0 < nth (N.to_nat s) fr' 0.
+Proof.
+  induction d as [|b d IH]; intros fr fr' H; cbn [count_go] in H.
+  - injection H as <-. split; [intros; lia|intros s []].
+  - destruct (bump (N.to_nat b) fr) as [fr1|] eqn:Hb; [|discriminate].
+    destruct (bump_nth _ _ _ Hb) as [_ [Hp Hm]]. destruct (IH fr1 fr' H) as [Hmono Hin].
+    split; [intros k; specialize (Hm k); specialize (Hmono k); lia|].
+    intros s [<-|Hs]; [specialize (Hmono (N.to_nat b)); lia|now apply Hin].
+Qed.
+Lemma present_go_in : forall fr i k, 0 < nth k fr 0 -> In (i + N.of_nat k) (present_go fr i).
+Proof.
+  induction fr as [|h t IH]; intros i k Hk; [destruct k; cbn [nth] in Hk; lia|].
+  cbn [present_go]. destruct k as [|k]; cbn [nth] in Hk.
+  - replace (0 <? h) with true by (symmetry; now apply N.ltb_lt). left. cbn. lia.
+  - assert (Hin : In (i + 1 + N.of_nat k) (present_go t (i + 1))) by now apply IH.
+    replace (i + N.of_nat (S k)) with (i + 1 + N.of_nat k) by lia.
+    destruct (0 <? h); [now right|exact Hin].
+Qed.
+Lemma from_data_covers heap_of t ht : heap_any heap_of -> bytes_ok t -> N.of_nat (length t) < W32 ->
+  from_data heap_of t = Some ht -> forall s, In s t -> get_code (ht_codes ht) s <> None.
+Proof.
+  intros Hh Ht Hn Hfd s Hs. unfold from_data in Hfd.
+  destruct (count_bytes_ok t Ht Hn) as [fr [Hc [Hlen _]]]. rewrite Hc in Hfd. unfold from_freqs in Hfd.
+  unfold count_bytes in Hc. destruct (count_go_pos _ _ _ Hc) as [_ Hpos].
+  assert (Hin : In s (present fr)).
+  { unfold present. replace s with (0 + N.of_nat (N.to_nat s)) by lia. apply present_go_in. now apply Hpos. }
+  destruct (from_heap_ok (present fr) (heap_of fr)) as [ht' [H1 [_ [_ Hcov]]]].
+  - intros Hnil. rewrite Hnil in Hin. destruct Hin.
+  - unfold present. pose proof (present_go_len_le fr 0). lia.
+  - apply Hh. intros Hnil. rewrite Hnil in Hin. destruct Hin.
+  - rewrite H1 in Hfd. injection Hfd as <-. now apply Hcov.
+Qed.
+
+(* AdaptiveParallelEncoder::encode_adaptive on its Huffman arms never refuses, and a HuffmanDecoder on
+   from_data(payload) returns the payload - whatever the member object had been used for before *)
+Theorem adaptive_huffman_roundtrip_proof : forall heap_of d st, heap_any heap_of ->
+  bytes_ok d -> N.of_nat (length d) < W32 ->
+  exists ht b st', from_data heap_of d = Some ht /\ ad_huffman heap_of d st = (st', Some b) /\
+                   huff_decode ht b (length d) = Some d.
+Proof.
+  intros heap_of d st Hh Hd Hn.
+  destruct (from_data_wf heap_of d Hh Hd Hn) as [ht [Hfd Hwf]].
+  destruct (huff_encode_total_proof ht d) as [b Hb].
+  { intros s Hs. now apply (from_data_covers heap_of d ht Hh Hd Hn Hfd). }
+  exists ht, b, (mkP (repeat ht (ad_streams (N.of_nat (length d)))) (Some ht)).
+  split; [exact Hfd|]. split; [|now apply huff_roundtrip_proof].
+  unfold ad_huffman. rewrite (p_train_ok heap_of _ d st ht Hfd). unfold p_encode. cbn [p_encs].
+  assert (Hs : exists k, ad_streams (N.of_nat (length d)) = S k).
+  { unfold ad_streams. destruct (_ <? 65536); [now exists 1%nat|]. destruct (_ <? 1048576); [now exists 3%nat|now exists 7%nat]. }
+  destruct Hs as [k ->]. cbn [repeat p_encs]. now rewrite Hb.
+Qed.
+
 Example ex_par_run :
   map (fun r => snd (fst r)) (p_run heap_left 4 [PEnc [97; 98; 97]; PTrain [97; 98; 99; 99]; PEnc [99; 97]] p_new None)
   = [Some [2]; Some [1]].
